@@ -271,6 +271,16 @@ theorem C02_roundtrip_doc (o : Model.Parser.Opts) (pol : Model.Lexer.Policy) (ci
   roundtrip_doc 0 o pol cif out (by rw [hdia]; rfl) hun hpr hstore hmfd hutf hL hR hN hw
 
 open Lemmas.WriterChunks in
+/-- **C02_output_units** — what `cif_write` hands to the output stream in CIF 2.0 mode is well-formed UTF-16 — no unpaired
+    surrogate — all of whose characters are CIF 2.0 characters (`okUnits .cif2`), for every CIF of such characters (`cifR`; `nk`: the
+    key normalisation, immaterial here).  The bytes are ICU's conversion of these units (`u_fprintf` on a UTF-8 `UFILE`): that
+    conversion maps well-formed UTF-16 to valid UTF-8 — an assumption about ICU (ASSUMPTIONS), observed per case by family `write`
+    (the bytes are decoded strictly as UTF-8 before the re-parse). -/
+theorem C02_output_units (nk : Str → Str) (cif : WCif) (out : Str) (hR : cifR .cif2 nk cif) (hw : writeCif 0 cif = .ok out) :
+    Spec.Lexical.okUnits .cif2 none out = true :=
+  output_units 0 nk cif out hR hw
+
+open Lemmas.WriterChunks in
 /-- **C02_quoted_status** — the quoted status in the equivalence of `C02_roundtrip_doc` / `C13_roundtrip` (`backV`) is property
     C02's relation: for a string the API can hold unquoted (`apiUnquoted`: what `cif_value_set_quoted(v, 0)` accepts) that is not
     longer than a line — and for every quoted string — the value read back has the same text and, up to `C02_quotedRel`, the
